@@ -12,6 +12,10 @@ NA = [
 
 # property -> (technique, level text, level note, design ref)
 CLAIMED = {
+ "C02": ("purely syntactic translation validation: MPCal front end + re-implemented normalisation on the spec side, inverted code-generator templates on the Go side, canonical token streams compared",
+         "For every checked-in spec/Go pair (23, discovered by the MakeMPCalJumpTable literal) each critical section, archetype/procedure table entry and operator definition of the generated Go is compared token by token with the canonical rendering of the MPCal source after the compiler's own normalisations (macro expansion, label flattening with synthetic gotos, while->if, multiple-assignment desugaring); every resource read must be used exactly once; every Goto/Call target must exist in the tables. An edit of generated Go (or of a spec) that changes an operator, operand, constant, index, target, statement or drops/adds a read is reported with the first differing token. It does not cover the PlusCal back end, regroupings that preserve token order, or the Scala compiler itself.",
+         "trusts that checker/specmatch mirrors MPCalNormalizePass / MPCalGoCodegenPass (validated: all 533 obligations of the 23 pairs agree on the pinned tree) and the Scala symbol tables read by checker/scalatab",
+         "DESIGN.md section 4, C02"),
  "C10": ("CFG rules on fairness.go and Run + a query over every generated critical-section literal (252) for choice ids, either-switch cases and with-selection bounds",
          "Decides the structural clauses of 'choices in range, every combination tried': returned counts are range-checked and digits initialised modulo their ceiling (FC-RANGE); the oracle is advanced exactly once per attempt between the .pc read and Body, keyed by the label (FC-BEGIN); the odometer increment starts at the deepest digit, visits every digit, stores modulo the digit's ceiling and propagates the carry, label change resets and id/bound change truncates (FC-CARRY); in all generated code choice ids are distinct literals per critical section, either-switches have exactly the cases 0..n-1 and with-selections use Len of the same set after the empty-set abort (FC-IDS). The combinatorial exactly-once claim over run-time attempt sequences is not decided.",
          "trusts go/types and go/cfg", "DESIGN.md section 4, C10"),
